@@ -66,7 +66,7 @@ type harness struct {
 
 // fail records an oracle failure; failures of the known-finding classes are recorded at most 8 times each
 // (vh.Result keeps 200 failures: they must not crowd out a new class), the rest is only counted.
-var knownClasses = map[string]int{"kind-swap-same-hash-inputs": 0, "expel-reason-not-hashed": 0, "concat-ambiguity-token-expelfacts": 0}
+var knownClasses = map[string]int{"blockmap-item-type-not-signed": 0, "kind-swap-same-hash-inputs": 0, "expel-reason-not-hashed": 0, "concat-ambiguity-token-expelfacts": 0}
 
 func (h *harness) fail(class, desc string, rp any) {
 	if n, ok := knownClasses[class]; ok {
@@ -308,6 +308,8 @@ func main() {
 						class = "kind-swap-same-hash-inputs"
 					case u.FHint == isaac.SuffrageExpelFactHint.String() && m.Field() == "/fact/reason" && m.Op == "value":
 						class = "expel-reason-not-hashed"
+					case u.Kind == "blockmap" && m.Op == "item-type":
+						class = "blockmap-item-type-not-signed"
 					}
 					desc := fmt.Sprintf("%s: unit %s at %s, field %s, %s", d.ob.Kind, u.Kind+"("+u.FHint+")", u.At.String(), m.Field(), m.Op)
 					if m.Op == "hint-swap" {
